@@ -189,6 +189,31 @@ def matches(observed, expect):
     return observed == expect
 
 
+def fea_job(mode):
+    """a feature file of the user's own: its features must be in the font (F22)"""
+    with scratch_dir("verif-c20f-") as d:
+        sd = d / "src"
+        sd.mkdir()
+        for fn, text in SOURCES:
+            (sd / fn).write_text(text)
+        (d / "my.fea").write_text("languagesystem DFLT dflt;\nfeature ss01 { sub .space by .notdef; } ss01;\n")
+        filecfg = dict(BASE)
+        args = []
+        if mode == "file":
+            filecfg["fea_file"] = str(d / "my.fea")
+        else:
+            args = [f"--fea_file={d / 'my.fea'}"]
+        (d / "cfg.toml").write_text("".join(f"{k} = {toml_value(v)}\n" for k, v in filecfg.items()) + MASTER)
+        rc, out = build.run_cli(["--build_dir", d / "build"] + args + [d / "cfg.toml"], cwd=d)
+        res = dict(field="fea_file", mode=mode, value="my.fea (feature ss01)", exit=rc)
+        if rc != 0:
+            res["log"] = out[-800:]
+            return res
+        font = load(sorted(p for p in (d / "build").iterdir() if p.suffix == ".ttf")[0])
+        res["features"] = sorted({fr.FeatureTag for fr in font["GSUB"].table.FeatureList.FeatureRecord}) if "GSUB" in font else []
+        return res
+
+
 def defaults_job():
     """no option given anywhere: the documented defaults"""
     with scratch_dir("verif-c20d-") as d:
@@ -304,6 +329,14 @@ def main(argv):
     if {k: d.get(k) for k in want} != want:
         report_failure(report, "defaults", dict(kind="e2e-cli", observed=d, expected=want, problem="an option that is not given does not leave its observable at the documented default"))
 
+    for mode in ("file", "flag"):
+        r = fea_job(mode)
+        report.count(("fea_file", mode), True)
+        report.hist("field", "fea_file")
+        if r["exit"] != 0 or "ss01" not in r.get("features", []):
+            report_failure(report, f"option_fea_file_{mode}", dict(kind="e2e-cli", case={k: str(v) for k, v in r.items()}, problem="the user's feature file did not reach GSUB"),
+                           "F22-fea-file-ignored" if r["exit"] == 0 else None)
+
     pairs = [
         ("clip_to_viewbox", {"color_format": "glyf_colr_1", "clip_to_viewbox": True}, {"color_format": "glyf_colr_1", "clip_to_viewbox": False}),
         ("metrics", {"color_format": "glyf_colr_1", "upem": 2048, "ascender": 1600, "descender": -448}, {"color_format": "glyf_colr_1"}),
@@ -325,7 +358,7 @@ def main(argv):
     if not st["proof_ok"] and not report.violations:
         report.violation("proof", dict(kind="proof", theorem="Props/C20.v", detail=report.notes.get("proof_failure")), found_input=False)
     report.open_obligations = [
-        "ignore_reuse_error has no font-level observable; glyphmap_generator and fea_file are exercised through the default generators only",
+        "ignore_reuse_error has no observable at all (no module reads it); glyphmap_generator is exercised through the default generator only",
         "UFO info -> binary tables is ufo2ft: observed, not modelled",
     ]
     return report.finish()
